@@ -2,15 +2,17 @@ import NeumannModel.Paths.BfsProofs
 import NeumannModel.Paths.DijkstraProofs
 import NeumannModel.Paths.TraverseProofs
 import NeumannModel.Paths.VarProofs
+import NeumannModel.Paths.AllPathsProofs
 /-
   C18 — "Path queries return real, optimal paths": the property theorems.
 
   Everything here is stated over the model of `Model.lean` and the declarative notions of `Spec.lean`
   (`BWalk`, `WWalk`, `TWalk`, `ChainOk`, `VarPathOk`) for EVERY graph: no bound on the number of nodes
   or edges, any ids, self-loops, parallel edges, duplicate ids, dangling endpoints.  Proofs live in
-  `BfsProofs`, `DijkstraProofs`, `TraverseProofs`, `VarProofs` (loop invariants + fuel adequacy).
+  `BfsProofs`, `DijkstraProofs`, `TraverseProofs`, `VarProofs`, `AllPathsProofs` (loop invariants + fuel
+  adequacy).
 
-  Components / spanning forest / core numbers / triangles / A* / all-shortest-paths: `Spec.lean` gives
+  Components / spanning forest / core numbers / triangles / A* / all-minimum-weight-paths: `Spec.lean` gives
   the textbook definitions; there is NO theorem about the Rust algorithms — the engine is compared
   with independent reference implementations by the correspondence run only.
 -/
@@ -154,6 +156,40 @@ example : NonNeg wGraph := by
   rcases he with rfl | rfl | rfl | rfl | rfl <;> decide
 example : (findWeightedPath wGraph 1 3).toOption = some { nodes := [1, 2, 3], edges := [21, 22], total := 1 } := by decide
 example : wGraph.hasNode 1 = true ∧ wGraph.hasNode 4 = true ∧ (findWeightedPath wGraph 1 4).toOption = none := by decide
+
+/-! ### find_all_paths: all shortest paths -/
+
+/-- every listed path is a real direction-respecting chain from `s` to `t` with exactly `hops` edges -/
+theorem allpaths_sound (g : Graph) (maxPaths cap s t : Nat) (r : AllPaths)
+    (h : findAllPaths g maxPaths cap s t = .ok r) :
+    ∀ p, p ∈ r.paths → p.nodes.head? = some s ∧ p.nodes.getLast? = some t ∧
+      ChainOk g (BStep g Flt.all t) p.nodes p.edges ∧ p.edges.length = r.hops :=
+  Neumann.Paths.allpaths_sound g maxPaths cap s t r h
+
+/-- the reported hop count is the true distance -/
+theorem allpaths_hops_shortest (g : Graph) (maxPaths cap s t : Nat) (r : AllPaths)
+    (h : findAllPaths g maxPaths cap s t = .ok r) :
+    BWalk g Flt.all t s t r.hops ∧ ∀ n, BWalk g Flt.all t s t n → r.hops ≤ n :=
+  Neumann.Paths.allpaths_hops_shortest g maxPaths cap s t r h
+
+theorem allpaths_none_iff_unreachable (g : Graph) (maxPaths cap s t : Nat)
+    (hs : g.hasNode s = true) (ht : g.hasNode t = true) :
+    findAllPaths g maxPaths cap s t = .error .pathNotFound ↔ ¬ ∃ n, BWalk g Flt.all t s t n :=
+  Neumann.Paths.allpaths_none_iff_unreachable g maxPaths cap s t hs ht
+
+/-- when neither cap is reached (`max_parents_per_node ≥ 2·|E|`, fewer than `max_paths` results)
+    every shortest chain is listed -/
+theorem allpaths_complete (g : Graph) (maxPaths cap s t : Nat) (r : AllPaths)
+    (h : findAllPaths g maxPaths cap s t = .ok r)
+    (hcap : 2 * g.edges.length ≤ cap) (hmax : r.paths.length < maxPaths)
+    (ns es : List Nat) (hhead : ns.head? = some s) (hlast : ns.getLast? = some t)
+    (hchain : ChainOk g (BStep g Flt.all t) ns es) (hlen : es.length = r.hops) :
+    { nodes := ns, edges := es } ∈ r.paths :=
+  Neumann.Paths.allpaths_complete g maxPaths cap s t r h hcap hmax ns es hhead hlast hchain hlen
+
+/-- non-vacuity: the diamond 1→2→4, 1→3→4, 4—5 has two shortest paths 1 ⇝ 5; `max_paths = 1` truncates -/
+example : (findAllPaths apExG 1000 100 1 5).toOption.map (fun r => (r.hops, r.paths.length)) = some (3, 2) := by decide
+example : (findAllPaths apExG 1 100 1 5).toOption.map (fun r => r.paths.length) = some 1 := by decide
 
 /-! ### traverse: exactly the nodes within the hop bound -/
 
